@@ -70,7 +70,7 @@ CATALOGUES["perm2"] = dict(version="gfa2", lines=[
     "E|e1|a+|b+|2|4$|0|2|2M", "E|e2|a+|b-|0|4$|1|5|*", "E|*|a+|c+|1|2|1|2|*", "E|e5|b+|c+|3|6$|0|3$|*",
     "G|g1|a+|b-|10|*", "F|a|x+|0|2|0|2|*",
     "O|o1|a+ b+", "O|o2|a+ e1+ b+", "O|o3|o2- c+", "O|o1|c+|xx:i:1",
-    "U|u1|a e1 g1", "U|u2|u1 o1", "U|u1|c|yy:i:2",
+    "U|u1|a e1 g1", "U|u2|u1 o1", "U|u1|c|yy:i:2", "U|u5|a g1", "O|o5|a+ g1+ b-",
     "X|custom|1", "H|VN:Z:2.0", "H|TS:i:10",
 ], ids=["a", "b", "c", "e1", "g1", "o1", "o2", "u1"], renames=[])
 
@@ -82,6 +82,19 @@ CATALOGUES["ver"] = dict(version="none", lines=[
     "E|e|a+|b+|0|1|2|3$|*", "F|a|x+|0|1|0|1|*", "G|g|a+|b-|5|*", "O|o|a+ b+", "U|u|a b",
     "X|custom|1", "#| c",
 ], ids=["A", "a"], renames=[])
+
+
+# identifiers: collisions between record types, integer-looking names, unused_name()
+CATALOGUES["ids1"] = dict(version="gfa1", lines=[
+    "S|A|*", "S|1|*", "S|3|*",
+    "L|A|+|1|+|*|ID:Z:2", "L|1|+|3|+|*|ID:Z:A", "C|A|+|3|+|0|*|ID:Z:1", "P|5|A+,1+|*", "P|A|1+,3+|*",
+], ids=["A", "1", "2", "5"], unused=True,
+    renames=[("A", "4"), ("3", "7"), ("2", "9"), ("A", "1"), ("5", "2"), ("1", "A")])
+CATALOGUES["ids2"] = dict(version="gfa2", lines=[
+    "S|a|3|*", "S|1|3|*",
+    "E|2|a+|1+|0|1|2|3$|*", "E|a|1+|1-|0|1|2|3$|*", "G|3|a+|1-|5|*", "O|4|a+ 2+ 1+", "U|1|a 2", "U|6|a 3",
+], ids=["a", "1", "2", "3"], unused=True,
+    renames=[("a", "5"), ("2", "8"), ("3", "a"), ("4", "9"), ("6", "1")])
 
 
 def text_of(src):
